@@ -16,7 +16,7 @@ variable {K V : Type} [DecidableEq K] [Inhabited V]
 attribute [deep_simp] deepStep encode decode runMethod FUEL ofSt stOf callDecl callVal callUser execL execS
   execInit evalE evalArgs evalFields itemsOp FuncDecl.params FuncDecl.results FuncDecl.body bindAll alloc
   popTo zeroOf readVar lookup readCell writeCell binop assignVar assignField assignIndex defineAll
-  assertTy readAll selField mkItem mkItem.go toV isNil ofItem asItem
+  assertTy readAll selField mkItem mkItem.go toV isNil ofItem asItem emit enter leave emitVisit
 
 set_option maxRecDepth 8192
 
@@ -278,7 +278,7 @@ theorem deep_deleteExpired (s : CSt K V) :
     case hcall =>
       intro k i w ev hw
       cases w; simp only at hw; subst hw
-      rename_i items _ _ _ _ _ _
+      rename_i items _ _ _ _ _ _ _ _
       by_cases he : Gen.item_expiredWithNow i.e s.now
       · cases hg : items.get k with
         | none => simp [deep_simp, hide, he, hg, Model.Cache.sweep, Model.Cache.sweepFn]
@@ -292,7 +292,7 @@ theorem deep_deleteExpired (s : CSt K V) :
     case hcall =>
       intro k i w ev hw
       cases w; simp only at hw; subst hw
-      rename_i items _ _ _ _ _ _
+      rename_i items _ _ _ _ _ _ _ _
       by_cases he : Gen.item_expiredWithNow i.e s.now
       · cases hg : items.get k with
         | none => simp [deep_simp, hide, he, hg, Model.Cache.sweep, Model.Cache.sweepFn]
